@@ -65,6 +65,15 @@ def jobs(tier, seed):
                 c1["g"].append(dict(t))
                 c2["g"].append(dict(t))
                 c2["g"].append({k: -v for k, v in t.items()})
+        if w == "cascade-shared-input" and i % 2 == 0:
+            # an interface-level guarantee of the consumer (z vs x) that the producer's guarantee implies through the
+            # connection (z vs y, y vs x): each side may look redundant given the other, the composition must keep it
+            overlap = "via-connection"
+            sg = rng.choice([1, -1])
+            k1, k2 = rng.choice([1, 1, 2]), rng.choice([1, 1, 2])
+            c1["g"].append({"y": sg, "x": -sg * k1})
+            c2["g"].append({"z": sg, "y": -sg * k2})
+            c2["g"].append({"z": sg, "x": -sg * k1 * k2})
         # keeping a connection variable makes it an output of the result: guarantees that mention it become interface-level
         conn = [v for v in o1 if v in i2] + [v for v in o2 if v in i1]
         keep = [v for v in conn if rng.random() < 0.5]
